@@ -209,7 +209,7 @@ class C03:
     def run_groups(self, part, groups, chunk=8, variant="fast"):
         """Run groups (each one batch item), check each. Returns list of sign-matrices (full mode)."""
         items = [self.item_of(g) for g in groups]
-        res = run_batch(variant, DRIVER, items, chunk=chunk, timeout=600)
+        res = run_batch(variant, DRIVER, items, chunk=chunk, timeout=240)
         out = []
         for g, (status, text) in zip(groups, res):
             if status != "OK":
@@ -710,17 +710,17 @@ def choose_key_sets(c, size):
     sets['home16'] = distinct(by16[best], size)
     # CLUSTER: homes b, b, b+1, b+1, b+2, b+2 (mod 16)
     for b in range(16):
-        a0 = distinct(by16.get(b, []), 2)
+        a0 = distinct(by16.get(b, []), 3)
         a1 = distinct(by16.get((b + 1) & 15, []), 2)
         a2 = distinct(by16.get((b + 2) & 15, []), 2)
-        if len(a0) == 2 and len(a1) == 2 and len(a2) == 2 and b + 2 < 16 and (b & 7) + 2 < 8:
-            sets['cluster'] = (a0 + a1 + a2)[:size]
+        if len(a0) >= 2 and len(a1) == 2 and len(a2) == 2 and b + 2 < 16 and (b & 7) + 2 < 8:
+            sets['cluster'] = (a0[:2] + a1 + a2 + a0[2:])[:size]
             break
-    # WRAP: homes 15, 15, 15, 0, 0, 14 (mod 16) = 7,7,7,0,0,6 (mod 8): probe sequences wrap around
+    # WRAP: homes 15, 15, 15, 0, 0, 14, 14 (mod 16) = 7,7,7,0,0,6,6 (mod 8): probe sequences wrap around
     a15 = distinct(by16.get(15, []), 3)
     a0 = distinct(by16.get(0, []), 2)
-    a14 = distinct(by16.get(14, []), 1)
-    if len(a15) == 3 and len(a0) == 2 and len(a14) == 1:
+    a14 = distinct(by16.get(14, []), 2)
+    if len(a15) == 3 and len(a0) == 2 and len(a14) >= 1:
         sets['wrap'] = (a15 + a0 + a14)[:size]
     # MIXED: two identical-hash keys + others from the same home bucket mod 8
     if 'fullhash' in sets:
@@ -737,7 +737,8 @@ def choose_key_sets(c, size):
     bb = max(bynum, key=lambda b: (len(bynum[b]), -b))
     sets['numbers'] = distinct(bynum[bb], size)
     # COMPOSITE keys (tuples / structs / booleans): content-hashed containers as keys
-    sets['composite'] = [M.tup(), M.btup(), M.tup(M.num(1)), M.btup(M.num(1)), M.st(), M.st([(M.kw("a"), M.num(1))])][:size]
+    sets['composite'] = [M.tup(), M.btup(), M.tup(M.num(1)), M.btup(M.num(1)), M.st(), M.st([(M.kw("a"), M.num(1))]),
+                         M.tup(M.num(1), M.num(2))][:size]
     for nm, ks in sets.items():
         chk.part("keysets", **{nm: " ".join(M.src(k) + "#%d" % (H[M.key(k)] & 15) for k in ks)})
     chk.part("keysets", fullhash_group=len(full))
@@ -824,7 +825,7 @@ def part_struct_perms(c, sets):
                     full_lists.append(pl)
                     nstruct += len(pl)
         groups = []
-        for ml in pack(full_lists, 130):
+        for ml in pack(full_lists, 130 if chk.quick else 730):
             if len(ml) > 400:
                 groups.append(dict(mode='first', flags=('canon',), members=ml))
             else:
@@ -895,7 +896,7 @@ def part_tuples(c):
         atoms = [M.num(0.0), M.num(-0.0), M.kw("a")]
         inner_arity, outer_arity = 1, 2
     else:
-        atoms = [M.num(0.0), M.num(-0.0), M.kw("a")]
+        atoms = [M.num(0.0), M.num(-0.0), M.kw("a"), M.NIL]
         inner_arity, outer_arity = 2, 2
 
     def tuples_over(elems, arity):
@@ -951,17 +952,18 @@ def part_tuples(c):
 # --------------------------------------------------------------------------
 # symbol recycling histories
 
-def sym_histories(nnames, depth):
-    """All operation sequences up to `depth`, with the stated pruning:
+def sym_histories(nnames, depth, grow=True):
+    """All operation sequences of exactly `depth` operations, with the stated pruning:
     S i / K i (intern as symbol / keyword and hold) only when i is not held; D i (drop) only when held;
-    L i (look up and discard) always; G (collect) not twice in a row; W (grow: intern many fillers) only
-    when not grown; R (release fillers) only when grown; name i is first touched only after names < i
-    (the names are interchangeable: all share one home slot)."""
+    L i (look up and discard) always; G (collect) not twice in a row and not first; W (grow: intern many
+    fillers, forcing the cache to resize) only when not grown; R (release the fillers) only when grown;
+    name i is first touched only after names < i (the names are interchangeable: all share one home
+    slot). grow=False leaves W/R out."""
     out = []
 
     def rec(hist, held, touched, grown, last):
-        out.append(" ".join(hist))
         if len(hist) == depth:
+            out.append(" ".join(hist))
             return
         for i in range(nnames):
             if i > touched:
@@ -979,78 +981,88 @@ def sym_histories(nnames, depth):
             rec(hist + ["L%d" % i], held, nt, grown, "L")
         if last != "G" and hist:
             rec(hist + ["G"], held, touched, grown, "G")
-        if not grown:
-            rec(hist + ["W"], held, touched, True, "W")
-        else:
-            rec(hist + ["R"], held, touched, False, "R")
+        if grow:
+            if not grown:
+                rec(hist + ["W"], held, touched, True, "W")
+            else:
+                rec(hist + ["R"], held, touched, False, "R")
     rec([], [None] * nnames, 0, False, "")
     return out
 
 
 def part_symbols(c):
     chk = c.chk
-    nnames = 3
     bits = 18
-    res = run_batch("fast", DRIVER, ['(symfind "c03q" %d %d 4000000)' % (nnames, bits)], chunk=1, timeout=300)
-    if res[0][0] != "OK" or res[0][1] == "none":
-        chk.cap("symbols: no %d names with equal low %d hash bits found" % (nnames, bits))
-        return
-    names = [x.split("=")[0] for x in res[0][1].split(",")]
-    hashes = [int(x.split("=")[1]) for x in res[0][1].split(",")]
-    if len(set(h & ((1 << bits) - 1) for h in hashes)) != 1:
-        raise HarnessError("symfind returned non-colliding names")
     nfill = 9000
-    names_j = "[%s]" % " ".join('"%s"' % nm for nm in names)
-    depth = 5 if chk.quick else 6
-    done = 0
+    # (number of names, depth with grow/release, depth without)
+    plans = [(3, 5, 6)] if chk.quick else [(3, 6, 7), (4, 5, 6)]
     total_hist = 0
-    for d in range(1, depth + 1):
-        if chk.out_of_time(0.85):
-            chk.cap("symbols: history depth %d not started (budget)" % d)
-            break
-        hs = [h for h in sym_histories(nnames, d) if len(h.split()) == d]
-        # histories that grow are ~100x more expensive: keep them to the shorter depths
-        items = ['(symhist %s %d "%s")' % (names_j, nfill, h) for h in hs]
-        try:
-            res = run_batch("fast", DRIVER, items, chunk=max(50, len(items) // 64 + 1), timeout=600)
-        except HarnessError as e:
-            # a broken symbol cache can take the batch protocol down with it (the item file itself is
-            # parsed by the interpreter under test): once violations are on record, stop this part
-            if chk.cov["parts"].get("symbols", {}).get("law_failures"):
-                chk.cap("symbols: batch aborted at depth %d after violations were reported (%s)" % (d, str(e)[:120]))
+    for (nnames, d_grow, d_plain) in plans:
+        res = run_batch("fast", DRIVER, ['(symfind "c03q" %d %d 4000000)' % (nnames, bits)], chunk=1, timeout=300)
+        if res[0][0] != "OK" or res[0][1] == "none":
+            chk.cap("symbols: no %d names with equal low %d hash bits found" % (nnames, bits))
+            continue
+        names = [x.split("=")[0] for x in res[0][1].split(",")]
+        hashes = [int(x.split("=")[1]) for x in res[0][1].split(",")]
+        if len(set(h & ((1 << bits) - 1) for h in hashes)) != 1:
+            raise HarnessError("symfind returned non-colliding names")
+        names_j = "[%s]" % " ".join('"%s"' % nm for nm in names)
+        tag = "symbols/%dnames" % nnames
+        done_grow = done_plain = 0
+        aborted = False
+        for d in range(1, d_plain + 1):
+            with_grow = d <= d_grow
+            if chk.out_of_time(0.8):
+                chk.cap("%s: history depth %d not started (budget)" % (tag, d))
                 break
-            raise
-        for h, (status, text) in zip(hs, res):
-            total_hist += 1
-            if status != "OK":
-                c.sym_violation(names, nfill, h, "history %s: %s" % (status, text[:200]), "symbol-history-" + status.lower())
-                continue
-            a, b, cc, lost = text.split("/")
-            chk.outcome("sym:" + text)
-            ok = (all(ch == "." or ch == "o" for ch in a) and all(ch == "0" for ch in b) and (cc == "" or cc == "O")
-                  and lost == "0:-1")
-            if not ok:
-                what = []
-                for i, ch in enumerate(a):
-                    if ch not in ".o":
-                        v = ord(ch) - 48
-                        miss = [nm for bit, nm in ((1, "="), (2, "same-address"), (4, "same-hash"), (8, "parse-identical"),
-                                                   (16, "unmarshal-identical"), (32, "cmp/struct/table lookup")) if not v & bit]
-                        what.append("name %d: a fresh symbol/keyword with the held one's bytes fails %s" % (i, ",".join(miss)))
-                if any(ch != "0" for ch in b):
-                    what.append("two different names or a symbol and a keyword compare equal")
-                if cc not in ("", "O"):
-                    what.append("containers over the symbols differ between routes (bits %d)" % (ord(cc) - 48))
-                if lost != "0:-1":
-                    what.append("%s held filler symbols are not found again (first: c03fill%s)" % tuple(lost.split(":")))
-                law = "interned-not-identical" if (any(ch not in ".o" for ch in a) or lost != "0:-1") else (
-                    "different-content-equal" if any(ch != "0" for ch in b) else "same-content-not-equal")
-                c.sym_violation(names, nfill, h, "; ".join(what), law + ":symbol-history")
-        chk.add(evaluations=len(hs), transitions=sum(len(h.split()) for h in hs), states=len(hs))
-        done = d
-        chk.part("symbols", **{"histories_depth_%d" % d: len(hs)})
-    chk.part("symbols", names=" ".join(names), low_bits=bits, fillers=nfill, depth_completed=done, histories=total_hist)
-    return done
+            hs = sym_histories(nnames, d, grow=with_grow)
+            items = ['(symhist %s %d "%s")' % (names_j, nfill, h) for h in hs]
+            try:
+                res = run_batch("fast", DRIVER, items, chunk=max(50, len(items) // 64 + 1), timeout=120)
+            except HarnessError as e:
+                # a broken symbol cache can take the batch protocol down with it (the item file itself
+                # is parsed by the interpreter under test): once violations are on record, stop here
+                if chk.cov["parts"].get(tag, {}).get("law_failures"):
+                    chk.cap("%s: batch aborted at depth %d after violations were reported (%s)" % (tag, d, str(e)[:120]))
+                    aborted = True
+                    break
+                raise
+            for h, (status, text) in zip(hs, res):
+                total_hist += 1
+                if status != "OK":
+                    c.sym_violation(tag, names, nfill, h, "history %s: %s" % (status, text[:200]), "symbol-history-" + status.lower())
+                    continue
+                a, b, cc, lost = text.split("/")
+                chk.outcome("sym:" + text)
+                ok = (all(ch == "." or ch == "o" for ch in a) and all(ch == "0" for ch in b) and (cc == "" or cc == "O")
+                      and lost == "0:-1")
+                if not ok:
+                    what = []
+                    for i, ch in enumerate(a):
+                        if ch not in ".o":
+                            v = ord(ch) - 48
+                            miss = [nm for bit, nm in ((1, "="), (2, "same-address"), (4, "same-hash"), (8, "parse-identical"),
+                                                       (16, "unmarshal-identical"), (32, "cmp/struct/table lookup")) if not v & bit]
+                            what.append("name %d: a fresh symbol/keyword with the held one's bytes fails %s" % (i, ",".join(miss)))
+                    if any(ch != "0" for ch in b):
+                        what.append("two different names or a symbol and a keyword compare equal")
+                    if cc not in ("", "O"):
+                        what.append("containers over the symbols differ between routes (bits %d)" % (ord(cc) - 48))
+                    if lost != "0:-1":
+                        what.append("%s held filler symbols are not found again (first: c03fill%s)" % tuple(lost.split(":")))
+                    law = "interned-not-identical" if (any(ch not in ".o" for ch in a) or lost != "0:-1") else (
+                        "different-content-equal" if any(ch != "0" for ch in b) else "same-content-not-equal")
+                    c.sym_violation(tag, names, nfill, h, "; ".join(what), law + ":symbol-history")
+            chk.add(evaluations=len(hs), transitions=sum(len(h.split()) for h in hs), states=len(hs))
+            if with_grow:
+                done_grow = d
+            done_plain = d
+            chk.part(tag, **{"histories_depth_%d%s" % (d, "" if with_grow else "_no_grow"): len(hs)})
+        chk.part(tag, names=" ".join(names), low_bits=bits, fillers=nfill, depth_completed_with_grow=done_grow,
+                 depth_completed=done_plain)
+        if aborted:
+            break
+    chk.part("symbols", histories=total_hist)
 
 
 def sym_replay_text(names, nfill, hist):
@@ -1092,8 +1104,8 @@ def sym_replay_text(names, nfill, hist):
        "\n".join("(step (fn [] %s))" % o for o in ops))
 
 
-def _sym_violation(self, names, nfill, hist, what, sig):
-    self.chk.part("symbols", law_failures=1)
+def _sym_violation(self, tag, names, nfill, hist, what, sig):
+    self.chk.part(tag, law_failures=1)
     self.chk.violation(sig, "after history [%s]: %s" % (hist, what), replay_text=sym_replay_text(names, nfill, hist),
                        replay_cmd="janet <this file>")
 
@@ -1104,6 +1116,14 @@ C03.sym_violation = _sym_violation
 # --------------------------------------------------------------------------
 
 def main():
+    # A mutated interpreter can loop while allocating (e.g. `next` cycling on a corrupt struct):
+    # bound the address space of this process and of every vjanet child (inherited).
+    try:
+        import resource
+        lim = int(os.environ.get("C03_AS_LIMIT_GB", "5")) << 30
+        resource.setrlimit(resource.RLIMIT_AS, (lim, lim))
+    except (ImportError, ValueError, OSError):
+        pass
     chk = Check("C03")
     chk.rule("value universe (numbers incl. -0, 2^31 and 2^53 neighbourhoods, infinities; byte strings as string/"
              "symbol/keyword incl. hash-colliding ones; nested tuples of both bracket kinds; structs incl. prototypes "
@@ -1133,7 +1153,7 @@ def main():
         part_triples(c, classes)
     sets = None
     if want("struct-perms") or want("struct-dups"):
-        sets, H = choose_key_sets(c, 6)
+        sets, H = choose_key_sets(c, 6 if chk.quick else 7)
     if want("struct-perms"):
         part_struct_perms(c, sets)
     if want("struct-dups"):
@@ -1145,7 +1165,8 @@ def main():
     chk.cov["bound_completed"] = ("universe all pairs; struct key subsets <= %d keys all orders; dup sequences <= %d; "
                                   "tuples depth 2; symbol histories depth %s" % (
                                       5 if chk.quick else 6, 4 if chk.quick else 5,
-                                      chk.cov["parts"].get("symbols", {}).get("depth_completed", "-")))
+                                      "/".join("%s:%s" % (k.split("/")[1], v.get("depth_completed", "-"))
+                                               for k, v in sorted(chk.cov["parts"].items()) if k.startswith("symbols/"))))
     chk.finish()
 
 
